@@ -114,7 +114,7 @@ def card_text(link):
     return ('M' if link.many else '1') + ('C' if link.conditional else '')
 
 def end_text(link, keys, phrase):
-    return card_text(link) + ' ' + link.to_metaclass.kind + ' (' + join(', ', keys) + ')' + ((" PHRASE '" + phrase + "'") if len(phrase) > 0 else '')
+    return card_text(link) + ' ' + link.to_metaclass.kind + ' (' + join(', ', keys) + ')' + ((" PHRASE '" + str_replace_all(phrase, "'", "''") + "'") if len(phrase) > 0 else '')
 ''')
 M.contract('xtuml.persist.serialize_association', [('ass', ASSOC)], returns=STR,
            requires={'association': 'ass is not None and ass.source_link is not None and ass.target_link is not None '
